@@ -72,6 +72,7 @@ pub fn eval(job: &Job) -> JobResult {
         "C19" => eval_c19(job),
         "C20" => crate::fut::eval(job),
         "C15" => eval_c15(job),
+        "C07" if job.extra.get("mode").and_then(|v| v.as_str()) == Some("custom") => eval_c07_custom(job),
         "C07" | "C08" | "C09" | "C10" | "C11" => eval_conf(job),
         other => JobResult { machinery_error: Some(format!("unknown check {}", other)), ..Default::default() },
     };
@@ -2302,6 +2303,43 @@ fn eval_c17_nesting(job: &Job, which: usize) -> JobResult {
 }
 
 /// Hand-written models (statics.rs): a thread-local first touched during its thread's teardown.
+/// C07, hand-written models (statics.rs): a read guard dropped by a panic that the model catches
+/// leaves the lock free.
+fn eval_c07_custom(job: &Job) -> JobResult {
+    let mut res = JobResult::default();
+    let which = job.extra["which"].as_u64().unwrap_or(0) as usize;
+    let sigs: std::sync::Arc<std::sync::Mutex<Vec<String>>> = Default::default();
+    let s2 = sigs.clone();
+    let mut b = loom::model::Builder::new();
+    b.log = false;
+    let r = std::panic::catch_unwind(std::panic::AssertUnwindSafe(move || {
+        b.check(move || {
+            let sig = crate::statics::rwlock_caught_panic_model(which);
+            s2.lock().unwrap_or_else(|e| e.into_inner()).push(sig);
+        })
+    }));
+    let sigs = sigs.lock().unwrap_or_else(|e| e.into_inner()).clone();
+    res.loom_iterations = sigs.len() as u64;
+    res.states = sigs.len() as u64;
+    res.transitions = sigs.len() as u64;
+    res.nontrivial = true;
+    let distinct: std::collections::BTreeSet<&String> = sigs.iter().collect();
+    res.sample = json!({"mode": "custom", "model": which, "iterations": sigs.len(), "signatures": distinct});
+    if let Err(p) = r {
+        let msg = p.downcast_ref::<&str>().map(|s| s.to_string()).or_else(|| p.downcast_ref::<String>().cloned()).unwrap_or_default();
+        res.verdict = subject::classify(&msg).short();
+        res.violations.push(viol("lock_after_caught_panic", format!("custom model {}", which), "the model returns normally: the lock is free once the panicking reader's guard is gone".into(), msg.lines().next().unwrap_or("").to_string(), json!({"signatures": distinct})));
+        return res;
+    }
+    res.verdict = "Ok".into();
+    if let Some(bad) = sigs.iter().find(|s| !s.starts_with("ok")) {
+        res.violations.push(viol("lock_after_caught_panic", format!("custom model {}", which), "every iteration: try_write succeeds / write does not block, the value is the one last written".into(), bad.clone(), json!({"signatures": distinct})));
+    } else {
+        res.traces_validated += sigs.len() as u64;
+    }
+    res
+}
+
 fn eval_c17_custom(job: &Job) -> JobResult {
     use std::sync::atomic::Ordering::SeqCst;
     let mut res = JobResult::default();
